@@ -38,7 +38,16 @@ var c16Amounts = []string{"1", "1000", "999999999", "+5", "007", "0x10", "1_0", 
 func genC16(t *rapid.T) caseC16 {
 	ch := rapid.IntRange(0, world.NumChannels-1).Draw(t, "channel")
 	c := caseC16{Channel: ch, SrcPort: world.CounterpartyPort, SrcChannel: world.CounterpartyChannel(ch)}
-	switch pick(t, "src", []string{"own", "own", "own", "own", "other-channel", "other-port", "noble-side"}) {
+	lookalike := "" // the prefix of a DIFFERENT channel whose identifier looks like this one's
+	switch pick(t, "src", []string{"own", "own", "own", "own", "other-channel", "other-port", "noble-side", "spelled-channel", "spelled-channel", "spelled-port"}) {
+	case "spelled-channel":
+		// the counterparty chooses its own channel identifier: ICS-24 only constrains length and
+		// character set, so other spellings of "the same number" are different channels
+		n := pick(t, "src/spell/n", []int{7 + ch, 7 + ch, 0, 1})
+		lookalike = fmt.Sprintf("%s/channel-%d/", c.SrcPort, n)
+		c.SrcChannel = fmt.Sprintf(pick(t, "src/spell/fmt", []string{"channel-0%d", "channel-00%d", "channel-%d ", "Channel-%d", "channel-+%d", "channel%d", "channel-%d-x", "channel_%d", "channel-%dx"}), n)
+	case "spelled-port":
+		c.SrcPort = pick(t, "src/spell/port", []string{"Transfer", "transfer ", "transfer.", "wasm.noble1qyqszqgpqyqszqgpqyqszqgpqyqszqgpqyqszqgpqyqszqgpqyqszqgpqyqs5j2cl9", "xfer", "ics20-1"})
 	case "other-channel":
 		c.SrcChannel = pick(t, "src/ch", []string{"channel-0", "channel-8", "channel-99"})
 	case "other-port":
@@ -51,7 +60,9 @@ func genC16(t *rapid.T) caseC16 {
 	n := pick(t, "hops", []int{1, 1, 1, 1, 0, 2, 2, 3})
 	var sb strings.Builder
 	for i := 0; i < n; i++ {
-		if i == 0 && kit.Chance(t, "first-own", 75) {
+		if i == 0 && lookalike != "" && kit.Chance(t, "first-lookalike", 45) {
+			sb.WriteString(lookalike)
+		} else if i == 0 && kit.Chance(t, "first-own", 75) {
 			sb.WriteString(own)
 		} else {
 			sb.WriteString(pick(t, fmt.Sprintf("hop%d", i), hops))
